@@ -31,7 +31,13 @@
 use crate::sync::{futex_wait_fast, NotSend};
 use core::cell::UnsafeCell;
 use core::fmt;
+#[cfg(not(tiny_std_verif))]
 use core::sync::atomic::{
+    AtomicU32,
+    Ordering::{Acquire, Relaxed, Release},
+};
+#[cfg(tiny_std_verif)]
+use sc::verif::{
     AtomicU32,
     Ordering::{Acquire, Relaxed, Release},
 };
